@@ -63,6 +63,7 @@ class Guard:
         self.raised = []  # (type name, 'file:func') of exceptions raised in bumble frames (when tracking)
         self.track = False
         self._last_exc = None
+        self._samples = []
 
     def install(self):
         if self.installed:
@@ -77,14 +78,31 @@ class Guard:
         mon.register_callback(TOOL_ID, mon.events.RAISE, self._on_raise)
         mon.set_events(TOOL_ID, mon.events.RAISE)
 
+    SAMPLES = 4
+    SAMPLE_GAP = 0.03
+
     def _on_alarm(self, signum, frame):
-        stack = []
+        """The guard expired.  Take SAMPLES stack samples SAMPLE_GAP CPU-seconds apart (holding the frame
+        objects so that identities cannot be reused), then raise.  The spinning function is the innermost
+        frame *object* common to all samples: its callees are re-created on every iteration, it is not."""
+        chain = []
         f = frame
         while f is not None:
-            fn = f.f_code.co_filename
-            if fn.startswith(_bumble_dir()):
-                stack.append(f'{_short(fn)}:{f.f_code.co_name}')
+            chain.append(f)
             f = f.f_back
+        chain.reverse()  # outermost first
+        self._samples.append(chain)
+        if len(self._samples) < self.SAMPLES:
+            signal.setitimer(signal.ITIMER_VIRTUAL, self.SAMPLE_GAP)
+            return
+        common = self._samples[0]
+        for other in self._samples[1:]:
+            n = 0
+            while n < len(common) and n < len(other) and common[n] is other[n]:
+                n += 1
+            common = common[:n]
+        stack = [f'{_short(f.f_code.co_filename)}:{f.f_code.co_name}' for f in reversed(common) if f.f_code.co_filename.startswith(_bumble_dir())]
+        self._samples = []
         self.fired = stack or ['<outside bumble>']
         raise BusyLoop()
 
@@ -112,10 +130,12 @@ class Guard:
 
     def arm(self, seconds: float):
         self.fired = None
+        self._samples = []
         signal.setitimer(signal.ITIMER_VIRTUAL, seconds)
 
     def disarm(self):
         signal.setitimer(signal.ITIMER_VIRTUAL, 0)
+        self._samples = []
 
 
 GUARD = Guard()
@@ -569,7 +589,7 @@ class LeCocBed(Bed):
             self.v_chan = ch
             ch.sink = lambda data: ch.write(bytes(data))
 
-        self.vic.create_l2cap_server(l2cap.LeCreditBasedChannelSpec(psm=self.PSM), on_channel)
+        self.vic.create_l2cap_server(l2cap.LeCreditBasedChannelSpec(psm=self.PSM, mtu=64, mps=32), on_channel)
 
         async def go():
             return await self.a_conn.create_l2cap_channel(l2cap.LeCreditBasedChannelSpec(psm=self.PSM))
@@ -1038,6 +1058,16 @@ class HciLeBed(AttServerBed):
         frames = data if isinstance(data, (tuple, list)) else (data,)
         return chan == 'hci' and any(W.hci_is_disconnection_complete(f, self.v_handle) for f in frames)
 
+    def classify(self, chan, data):
+        if chan != 'hci':
+            return None
+        f = data[-1] if isinstance(data, (tuple, list)) else data
+        if len(f) < 2:
+            return 'hci.short'
+        if f[0] == 0x04:
+            return f'hci.event_{f[1]:02x}' + (f'_{f[3]:02x}' if f[1] == 0x3E and len(f) > 3 else '')
+        return {0x01: 'hci.command', 0x02: 'hci.acl', 0x03: 'hci.sco', 0x05: 'hci.iso'}.get(f[0], f'hci.type_{f[0]:02x}')
+
     def probe_cmd(self):
         from bumble import hci
 
@@ -1063,6 +1093,7 @@ class HciClBed(ClSigBed):
     name = 'hci_cl'
     is_valid_disconnect = HciLeBed.is_valid_disconnect
     probe_cmd = HciLeBed.probe_cmd
+    classify = HciLeBed.classify
 
     def probe(self):
         return self.probe_cmd() or super().probe()
